@@ -186,11 +186,56 @@ def run_case(case_seed, exports, fails, stats):
 
     if not check(cur, "x", "constructor", curq):
         return
+
+    # every object produced so far stays alive under its own name; after EVERY operation all of them are re-validated
+    # (dense sector + qntot by the oracle; support pattern / qn / qnidx / qntot by the Coq checker whenever they differ
+    # from what was last exported for that object): an operation must not invalidate its operands or their relatives
+    live = []              # (name, object, sector)
+    last_sig = {}
+
+    def sig_of(mp):
+        return json.dumps([[np.asarray(x).tolist() for x in mp.qn], int(mp.qnidx), np.asarray(mp.qntot).tolist(), pattern(mp)])
+
+    def keep(name_expr, mp, sector):
+        if any(o is mp for (_, o, _) in live):
+            return
+        alias = "k%d" % len(live)
+        lines.append("%s = %s" % (alias, name_expr))
+        live.append((alias, mp, list(sector)))
+        last_sig[id(mp)] = sig_of(mp)
+
+    def recheck_live(what, skip):
+        for (alias, mp, sector) in live:
+            if mp is skip:
+                continue
+            stats["live_rechecks"] = stats.get("live_rechecks", 0) + 1
+            lk, nrm = leak(mp, charges, sector)
+            qt = np.asarray(mp.qntot).reshape(-1)
+            if not (lk <= 1e-10) or not np.all(qt == np.array(sector)):
+                fails.append({"key": "operand-stale:%s" % what.split("[")[0],
+                              "detail": {"op": what, "object": alias, "created_in_sector": sector, "qntot_now": qt.tolist(), "leak_wrt_created_sector": lk,
+                                         "explanation": "an earlier object (operand or a relative by copy) no longer describes itself after this operation"},
+                              "repro": PRELUDE + "\n".join(lines) + "\nlk, nrm = N.leak(%s, charges, %r)\nprint('object %s: amplitude outside its sector %r:', lk, '; qntot now', %s.qntot)\n"
+                                       "sys.exit(1 if (not lk <= 1e-10) or not np.all(np.asarray(%s.qntot).reshape(-1) == np.array(%r)) else 0)\n"
+                                       % (alias, sector, alias, sector, alias, alias, sector),
+                              "case_seed": case_seed})
+                return False
+            sg = sig_of(mp)
+            if sg != last_sig.get(id(mp)):
+                last_sig[id(mp)] = sg
+                e = export(mp, sites, "operand-after:" + what)
+                e["case"] = case_seed
+                e["repro_lines"] = PRELUDE + "\n".join(lines) + "\n"
+                e["name"] = alias
+                exports.append(e)
+        return True
+
     nops = rng.randint(2, 5)
     for step in range(nops):
         opk = rng.choice(["cano", "compress_lossless", "compress_trunc", "compress_trunc", "add_compress", "scale", "apply_q", "apply_q",
                           "gs", "evolve", "evolve", "evolve"])
         what = opk
+        keep("x", cur, curq)
         try:
             if opk == "cano":
                 side = rng.choice(["L", "R"])
@@ -210,6 +255,7 @@ def run_case(case_seed, exports, fails, stats):
                 other = make_state("y")
                 if other is None or curq != q:
                     continue
+                keep("y", other, q)
                 cc = rng.choice([("fixed", 4096), ("fixed", 2), ("threshold", 1e-3)])
                 v = rng.uniform(-2, 2)
                 cur = cur.add(other.scale(v))
@@ -279,6 +325,8 @@ def run_case(case_seed, exports, fails, stats):
                               "repro": None, "case_seed": case_seed})
             return
         if not check(cur, "x", what, curq):
+            return
+        if not recheck_live(what, cur):
             return
 
 
